@@ -15,3 +15,4 @@ import MimicProps.C06
 #print axioms MimicProps.C06.code_literal_lexes_back
 #print axioms MimicProps.C06.send_long_data_is_code
 #print axioms MimicProps.C06.reset_abandons_long_data_code
+#print axioms MimicProps.C06.code_prepare_announces_placeholders
